@@ -358,8 +358,29 @@ def check_ledger_init(ctx, model, crate):
            "entries built from parameters %s with zero amounts: %s, saved under the item parameter: %s" % (infos, zero, recv_ok), h.where())
 
 
+def check_compute_swap_fields(ctx, model):
+    """F1 (source of the charged value): what swap books as the protocol / burn fee is compute_swap(..).protocol_fee_amount /
+    .burn_fee_amount; in BOTH pair-type arms of compute_swap those fields carry Fee::compute of the like-named pool_fees
+    field (so the amount booked is the amount withheld from the trader)."""
+    from .C02 import check_result_fields, cp_arm_blocks, CS
+    from ..dataflow import variant_excluded_edges
+    v = ctx.view(CS, "C07-F1")
+    if v is None:
+        return
+    cp = cp_arm_blocks(v)
+    pred = lambda os_: bool(os_) and all(o.kind == "param" and "PairType" in v.local_ty(o.a) for o in os_)
+    ss = v.reachable(0, cut_edges=variant_excluded_edges(v, "pool_network::asset::PairType", pred, "StableSwap")) - \
+        v.reachable(0, cut_edges=variant_excluded_edges(v, "pool_network::asset::PairType", pred, "ConstantProduct"))
+    check_result_fields(ctx, v, cp, "C07-F1", "constant-product arm")
+    check_result_fields(ctx, v, ss, "C07-F1", "stableswap arm")
+
+
 def run(ctx):
     model = ctx.model()
+    check_compute_swap_fields(ctx, model)
+    # the vault's balance snapshot for the repayment test is the raw queried balance (pending fees are owed, not spare)
+    from .C06 import check_flash_loan
+    check_flash_loan(ctx.renamed({"C06-X2": "C07-F1"}), model)
     for crate in POOLS:
         check_ledger_init(ctx, model, crate)
         check_swap(ctx, model, crate)
